@@ -6,13 +6,42 @@ import CalmVerif.Model.TokenAdj
 namespace CalmVerif.TokenAdj
 open CalmVerif CalmVerif.Unparse
 
-abbrev Follow := List (Sym × Sym)
+/-! ### bit sets of symbols -/
+
+theorem SymSet.mem_iff (s : SymSet) (x : Sym) : x ∈ s ↔ s.bits.testBit x = true := Iff.rfl
+
+theorem SymSet.not_mem_empty (x : Sym) : ¬ x ∈ SymSet.empty := by
+  simp [SymSet.mem_iff, SymSet.empty]
+
+theorem SymSet.mem_single (x y : Sym) : x ∈ SymSet.single y ↔ x = y := by
+  simp only [SymSet.mem_iff, SymSet.single, Nat.one_shiftLeft, Nat.testBit_two_pow, decide_eq_true_eq]
+  exact eq_comm
+
+theorem SymSet.mem_append (a b : SymSet) (x : Sym) : x ∈ a ++ b ↔ x ∈ a ∨ x ∈ b := by
+  show (SymSet.union a b).bits.testBit x = true ↔ _
+  simp only [SymSet.union, Nat.testBit_or, Bool.or_eq_true, SymSet.mem_iff]
+
+theorem SymSet.mem_ofList (x : Sym) : ∀ l : List Sym, x ∈ SymSet.ofList l ↔ x ∈ l
+  | [] => by simp [SymSet.ofList, SymSet.not_mem_empty]
+  | y :: ys => by
+    simp only [SymSet.ofList, SymSet.mem_append, SymSet.mem_single, SymSet.mem_ofList x ys, List.mem_cons]
+
+theorem SymSet.mem_of_subset {a b : SymSet} (h : a.subset b = true) {x : Sym} (hx : x ∈ a) : x ∈ b := by
+  simp only [SymSet.subset, beq_iff_eq] at h
+  rw [SymSet.mem_iff] at hx ⊢
+  rw [← h, Nat.testBit_or, hx]; rfl
+
+/-- the follow relation: a list of rectangles -/
+abbrev Follow := List Rect
+
+/-- `x` may be directly followed by `y` -/
+def InF (F : Follow) (x y : Sym) : Prop := ∃ r ∈ F, x ∈ r.1 ∧ y ∈ r.2
 
 /-- every two consecutive symbols are in `F` -/
 def PairsIn (F : Follow) : List Sym → Prop
   | [] => True
   | [_] => True
-  | a :: b :: t => (a, b) ∈ F ∧ PairsIn F (b :: t)
+  | a :: b :: t => InF F a b ∧ PairsIn F (b :: t)
 
 structure InLang (F : Follow) (a : Abs) (l : List Sym) : Prop where
   nul : l = [] → a.n = true
@@ -21,7 +50,7 @@ structure InLang (F : Follow) (a : Abs) (l : List Sym) : Prop where
   prs : PairsIn F l
 
 theorem pairsIn_append (F : Follow) : ∀ (l1 l2 : List Sym), PairsIn F l1 → PairsIn F l2 →
-    (∀ a b, l1.getLast? = some a → l2.head? = some b → (a, b) ∈ F) → PairsIn F (l1 ++ l2) := by
+    (∀ a b, l1.getLast? = some a → l2.head? = some b → InF F a b) → PairsIn F (l1 ++ l2) := by
   intro l1
   induction l1 with
   | nil => intro l2 _ h2 _; simpa using h2
@@ -36,47 +65,54 @@ theorem pairsIn_append (F : Follow) : ∀ (l1 l2 : List Sym), PairsIn F l1 → P
         exact ⟨hc x y (by simp) (by simp), h2⟩
     | cons z zs =>
       show PairsIn F (x :: (z :: zs ++ l2))
-      have h1' : (x, z) ∈ F ∧ PairsIn F (z :: zs) := h1
+      have h1' : InF F x z ∧ PairsIn F (z :: zs) := h1
       refine ⟨h1'.1, ?_⟩
       apply ih l2 h1'.2 h2
       intro a b ha hb
       exact hc a b (by simpa [List.getLast?_cons_cons] using ha) hb
 
-theorem mem_cross {a b : Abs} {x y : Sym} (hx : x ∈ a.l) (hy : y ∈ b.f) : (x, y) ∈ cross a b := by
-  simp only [cross, List.mem_flatMap, List.mem_map, Prod.mk.injEq]
-  exact ⟨x, hx, y, hy, rfl, rfl⟩
+theorem inF_cross {F : Follow} {a b : Abs} (hc : ∀ p ∈ cross a b, p ∈ F) {x y : Sym} (hx : x ∈ a.l) (hy : y ∈ b.f) :
+    InF F x y := ⟨(a.l, b.f), hc _ (by simp [cross]), hx, hy⟩
 
 theorem inLang_nil (F : Follow) {a : Abs} (h : a.n = true) : InLang F a [] :=
   ⟨fun _ => h, fun x hx => by simp at hx, fun x hx => by simp at hx, trivial⟩
 
-theorem inLang_single (F : Follow) (s : Sym) : InLang F (Abs.ofSyms [s]) [s] :=
-  ⟨fun h => by simp at h, fun x hx => by simp at hx; simp [Abs.ofSyms, hx], fun x hx => by simp at hx; simp [Abs.ofSyms, hx], trivial⟩
-
 theorem inLang_singleOf (F : Follow) {ss : List Sym} {s : Sym} (h : s ∈ ss) : InLang F (Abs.ofSyms ss) [s] :=
-  ⟨fun h => by simp at h, fun x hx => by simp at hx; subst hx; exact h, fun x hx => by simp at hx; subst hx; exact h, trivial⟩
+  ⟨fun h => by simp at h,
+   fun x hx => by simp at hx; subst hx; exact (SymSet.mem_ofList _ _).mpr h,
+   fun x hx => by simp at hx; subst hx; exact (SymSet.mem_ofList _ _).mpr h, trivial⟩
 
-theorem inLang_append {F : Follow} {a b : Abs} {l1 l2 : List Sym} (h1 : InLang F a l1) (h2 : InLang F b l2)
-    (hc : ∀ p ∈ cross a b, p ∈ F) : InLang F (a.seq b) (l1 ++ l2) := by
+theorem inLang_single (F : Follow) (s : Sym) : InLang F (Abs.ofSyms [s]) [s] := inLang_singleOf F (by simp)
+
+theorem mem_seq_f {a b : Abs} {x : Sym} : x ∈ (a.seq b).f ↔ x ∈ a.f ∨ (a.n = true ∧ x ∈ b.f) := by
+  simp only [Abs.seq, SymSet.mem_append]
+  cases a.n <;> simp [SymSet.not_mem_empty]
+
+theorem mem_seq_l {a b : Abs} {x : Sym} : x ∈ (a.seq b).l ↔ x ∈ b.l ∨ (b.n = true ∧ x ∈ a.l) := by
+  simp only [Abs.seq, SymSet.mem_append]
+  cases b.n <;> simp [SymSet.not_mem_empty]
+
+theorem inLang_append' {F : Follow} {a b : Abs} {l1 l2 : List Sym} (h1 : InLang F a l1) (h2 : InLang F b l2)
+    (hc : ∀ x ∈ a.l, ∀ y ∈ b.f, InF F x y) : InLang F (a.seq b) (l1 ++ l2) := by
   refine ⟨?_, ?_, ?_, ?_⟩
   · intro h
     have := List.append_eq_nil_iff.mp h
     simp [Abs.seq, h1.nul this.1, h2.nul this.2]
   · intro x hx
+    rw [mem_seq_f]
     cases l1 with
     | nil =>
       simp only [List.nil_append] at hx
-      simp only [Abs.seq, List.mem_append, h1.nul rfl, if_true]
-      exact Or.inr (h2.fst x hx)
+      exact Or.inr ⟨h1.nul rfl, h2.fst x hx⟩
     | cons y ys =>
       simp only [List.cons_append, List.head?_cons, Option.some.injEq] at hx
-      simp only [Abs.seq, List.mem_append]
       exact Or.inl (h1.fst x (by simp [hx]))
   · intro x hx
+    rw [mem_seq_l]
     cases l2 with
     | nil =>
       simp only [List.append_nil] at hx
-      simp only [Abs.seq, List.mem_append, h2.nul rfl, if_true]
-      exact Or.inr (h1.lst x hx)
+      exact Or.inr ⟨h2.nul rfl, h1.lst x hx⟩
     | cons y ys =>
       have : (l1 ++ y :: ys).getLast? = (y :: ys).getLast? := by
         rw [List.getLast?_append]
@@ -84,11 +120,14 @@ theorem inLang_append {F : Follow} {a b : Abs} {l1 l2 : List Sym} (h1 : InLang F
         | none => simp at hq
         | some z => rfl
       rw [this] at hx
-      simp only [Abs.seq, List.mem_append]
       exact Or.inl (h2.lst x hx)
   · apply pairsIn_append F l1 l2 h1.prs h2.prs
     intro x y hx hy
-    exact hc _ (mem_cross (h1.lst x hx) (h2.fst y hy))
+    exact hc x (h1.lst x hx) y (h2.fst y hy)
+
+theorem inLang_append {F : Follow} {a b : Abs} {l1 l2 : List Sym} (h1 : InLang F a l1) (h2 : InLang F b l2)
+    (hc : ∀ p ∈ cross a b, p ∈ F) : InLang F (a.seq b) (l1 ++ l2) :=
+  inLang_append' h1 h2 (fun _ hx _ hy => inF_cross hc hx hy)
 
 theorem mem_of_subList {α : Type} [BEq α] [LawfulBEq α] {a b : List α} (h : subList a b = true) {x : α} (hx : x ∈ a) :
     x ∈ b := by
@@ -99,7 +138,7 @@ theorem mem_of_subList {α : Type} [BEq α] [LawfulBEq α] {a b : List α} (h : 
 theorem inLang_mono {F : Follow} {a b : Abs} {l : List Sym} (h : InLang F a l) (hle : a.le b = true) : InLang F b l := by
   simp only [Abs.le, Bool.and_eq_true, Bool.or_eq_true, Bool.not_eq_true'] at hle
   obtain ⟨⟨hn, hf⟩, hl⟩ := hle
-  refine ⟨?_, fun x hx => mem_of_subList hf (h.fst x hx), fun x hx => mem_of_subList hl (h.lst x hx), h.prs⟩
+  refine ⟨?_, fun x hx => SymSet.mem_of_subset hf (h.fst x hx), fun x hx => SymSet.mem_of_subset hl (h.lst x hx), h.prs⟩
   intro he
   rcases hn with hn | hn
   · rw [h.nul he] at hn; cases hn
@@ -114,10 +153,12 @@ theorem inLang_opt {F : Follow} {a : Abs} {l : List Sym} (h : InLang F a l) : In
   inLang_weaken h (fun _ => rfl) (fun _ hx => hx) (fun _ hx => hx)
 
 theorem inLang_altL {F : Follow} {a b : Abs} {l : List Sym} (h : InLang F a l) : InLang F (a.alt b) l :=
-  inLang_weaken h (fun hn => by simp [Abs.alt, hn]) (fun _ hx => by simp [Abs.alt, hx]) (fun _ hx => by simp [Abs.alt, hx])
+  inLang_weaken h (fun hn => by simp [Abs.alt, hn]) (fun _ hx => (SymSet.mem_append _ _ _).mpr (Or.inl hx))
+    (fun _ hx => (SymSet.mem_append _ _ _).mpr (Or.inl hx))
 
 theorem inLang_altR {F : Follow} {a b : Abs} {l : List Sym} (h : InLang F b l) : InLang F (a.alt b) l :=
-  inLang_weaken h (fun hn => by simp [Abs.alt, hn]) (fun _ hx => by simp [Abs.alt, hx]) (fun _ hx => by simp [Abs.alt, hx])
+  inLang_weaken h (fun hn => by simp [Abs.alt, hn]) (fun _ hx => (SymSet.mem_append _ _ _).mpr (Or.inr hx))
+    (fun _ hx => (SymSet.mem_append _ _ _).mpr (Or.inr hx))
 
 /-- iteration: a concatenation of strings of `p` is a string of `⟨true, p.f, p.l⟩` -/
 theorem inLang_star {F : Follow} {p : Abs} (hc : ∀ q ∈ cross p p, q ∈ F) :
@@ -134,14 +175,8 @@ theorem inLang_star {F : Follow} {p : Abs} (hc : ∀ q ∈ cross p p, q ∈ F) :
     simp only [List.flatten_cons]
     refine inLang_weaken this (fun _ => rfl) ?_ ?_
     · intro x hx
-      simp only [Abs.seq, List.mem_append] at hx
-      rcases hx with hx | hx
-      · exact hx
-      · split at hx
-        · exact hx
-        · simp at hx
+      rcases mem_seq_f.mp hx with hx | ⟨_, hx⟩ <;> exact hx
     · intro x hx
-      simp only [Abs.seq, List.mem_append, if_true] at hx
-      rcases hx with hx | hx <;> exact hx
+      rcases mem_seq_l.mp hx with hx | ⟨_, hx⟩ <;> exact hx
 
 end CalmVerif.TokenAdj
